@@ -18,6 +18,9 @@ pub struct Case {
     /// 0 whole archive (linear), 1 listed names, 2 glob
     pub form: u8,
     pub absolute_out: bool,
+    /// spelling of a relative output argument: 0 "out", 1 "./out", 2 "out/", 3 "x/../out"
+    #[serde(default)]
+    pub out_style: u8,
     pub out_exists: bool,
     /// a directory symlink inside the output directory pointing outside
     pub symlink_in_out: bool,
@@ -89,7 +92,7 @@ pub fn cases(ctx: &Ctx) -> Vec<Case> {
                 names.insert(nm);
             }
         }
-        v.push(Case { names: names.into_iter().collect(), form: (i % 3) as u8, absolute_out: i % 2 == 0, out_exists: i % 4 != 3, symlink_in_out: i % 5 == 0, seed: rng.next() });
+        v.push(Case { names: names.into_iter().collect(), form: (i % 3) as u8, absolute_out: i % 2 == 0, out_style: ((i / 2) % 4) as u8, out_exists: i % 4 != 3, symlink_in_out: i % 5 == 0, seed: rng.next() });
     }
     v
 }
@@ -270,6 +273,9 @@ pub fn run_case(ctx: &mut Ctx, c: &Case) {
     if c.symlink_in_out {
         let _ = std::os::unix::fs::symlink("../canary", out.join("link_out"));
     }
+    if !c.absolute_out && c.out_style % 4 == 3 {
+        let _ = std::fs::create_dir_all(sb.join("x"));
+    }
     let before = snapshot(&sb, &out);
     // classes of names, for the must-hit evidence
     for n in contents.keys() {
@@ -283,7 +289,20 @@ pub fn run_case(ctx: &mut Ctx, c: &Case) {
     }
     // run under strace
     let log = sb.join("strace.log");
-    let out_arg = if c.absolute_out { out.to_string_lossy().to_string() } else { "out".to_string() };
+    let out_arg = if c.absolute_out {
+        out.to_string_lossy().to_string()
+    } else {
+        match c.out_style % 4 {
+            0 => "out".to_string(),
+            1 => "./out".to_string(),
+            2 => "out/".to_string(),
+            _ => {
+                let _ = std::fs::create_dir_all(sb.join("x"));
+                "x/../out".to_string()
+            }
+        }
+    };
+    ctx.count(&format!("outarg:{}", if c.absolute_out { "absolute".to_string() } else { format!("relative_style{}", c.out_style % 4) }));
     let mut cmd = Command::new("strace");
     cmd.current_dir(&sb).args(["-f", "-qq", "-xx", "-s", "70000", "-e", "trace=%file", "-o"]).arg(&log).arg(&mlar).args(["extract", "-i", "a.mla", "-o", &out_arg]);
     let chosen: Vec<String> = match c.form % 3 {
